@@ -31,6 +31,8 @@ RULE = (
     "notation of a given --print-format: ISO dump syntax with template or "
     "literal zones, or strftime directives), to the fields shifted on "
     "vlib.refcal (exact part, then months, then years, per offset in order). "
+    "A decimal hour / minute argument is also shifted by part of its own "
+    "unit (06,5 + PT15M must print 06,75). "
     "kind 'shift_pf': the same for a date-time written in a strptime "
     "notation - a custom --parse-format over the supported directives, or "
     "the documented ctime form tried by default - whose output must use that "
@@ -304,6 +306,35 @@ def check_case_inner(case):
             utc = "--utc" in argv or "-u" in argv
             start = resolve(cm, arg, utc, sys_cfg)
             end = apply_offsets(cm, start, case["offsets"])
+            if case.get("subunit"):
+                # the spelled fraction is a whole number of seconds: shift the
+                # whole-second point and spell the new fraction
+                unit = 1 if "second" in arg["time"] else 60 if "minute" in \
+                    arg["time"] else 3600
+                whole = dict(arg, time=dict(arg["time"]), frac=None)
+                extra = int(Fraction("0." + arg["frac"]) * unit)
+                start = RC.ref_step(cm, resolve(cm, whole, utc, sys_cfg),
+                                    {"seconds": extra}, 1)
+                end = apply_offsets(cm, start, case["offsets"])
+                rest = (end["minute_of_hour"] * 60 + end["second_of_minute"]
+                        if unit == 3600 else end["second_of_minute"]
+                        if unit == 60 else 0)
+                if unit == 1:
+                    newfrac = arg["frac"]
+                else:
+                    q = Fraction(rest, unit)
+                    digits = ""
+                    while q and len(digits) < 7:
+                        q *= 10
+                        digits += str(int(q))
+                        q -= int(q)
+                    newfrac = digits or "0"
+                    if unit == 3600:
+                        end = dict(end, minute_of_hour=0, second_of_minute=0)
+                    else:
+                        end = dict(end, second_of_minute=0)
+                arg = dict(arg, frac=newfrac)
+                classes.append("decimal_shifted_within_unit")
             if case.get("print"):
                 exp = expected_print(cm, end, case["print"])
                 classes.append("print_format/" + case["print"]["fmt"])
@@ -611,6 +642,25 @@ def st_shift(draw):
     dec = draw(st.integers(0, 5)) == 0
     arg = draw(st_arg(cm, allow_decimal=dec))
     offs = draw(st_offsets(arg["frac"] is not None))
+    subunit = False
+    if arg["frac"] is not None and draw(st.booleans()):
+        # a decimal time of day shifted by part of its own unit: the
+        # fraction itself has to change (06,5 + PT15M = 06,75)
+        unit = 1 if "second" in arg["time"] else 60 if "minute" in arg["time"] \
+            else 3600
+        if (Fraction("0." + arg["frac"]) * unit).denominator == 1:
+            subunit = True
+            menu = {3600: [{"minutes": 15}, {"minutes": 30}, {"minutes": 45},
+                           {"hours": 1, "minutes": 30},
+                           {"minutes": 7, "seconds": 30},
+                           {"days": 1, "minutes": 15}],
+                    60: [{"seconds": 15}, {"seconds": 30}, {"seconds": 45},
+                         {"minutes": 1, "seconds": 30},
+                         {"hours": 1, "seconds": 15}],
+                    1: [{"seconds": 1}, {"minutes": 1}, {"hours": 23}]}[unit]
+            offs = [[draw(st.sampled_from([1, 1, -1])),
+                     draw(st.sampled_from(menu))]
+                    for _ in range(draw(st.integers(1, 2)))]
     argv = list(margv)
     ref_via = None
     pos = arg["text"]
@@ -650,7 +700,7 @@ def st_shift(draw):
         argv += [pos] + frag
     else:
         argv += frag + [pos]
-    return {"stdin": draw(st.integers(0, 7)) == 0, "kind": "shift", "mode": mode, "mode_via": via, "argv": argv,
+    return {"subunit": subunit, "stdin": draw(st.integers(0, 7)) == 0, "kind": "shift", "mode": mode, "mode_via": via, "argv": argv,
             "env": env, "sys": list(draw(SYS)), "arg": arg, "offsets": offs,
             "ref_via": ref_via, "print": pr}
 
